@@ -146,6 +146,17 @@ impl Prop for C02 {
     fn n_cases(&self) -> u64 {
         self.cases.len() as u64
     }
+    /// pair block: every ordered pair of the certificate x checking x NLA cases (trusted after untrusted, checking
+    /// on after checking off, ...) plus one refused confirm of each other block
+    fn pair_reps(&self, _tier: Tier) -> Vec<u64> {
+        let mut v: Vec<u64> = (0..self.cases.len()).filter(|i| self.cases[*i].block == "certificate").map(|i| i as u64).collect();
+        for b in ["selected-value", "reply-kind", "offered-mask"] {
+            if let Some(i) = self.cases.iter().position(|c| c.block == b) {
+                v.push(i as u64);
+            }
+        }
+        v
+    }
     fn describe(&self, idx: u64) -> Value {
         json!({"idx": idx, "case": self.cases[idx as usize]})
     }
